@@ -38,3 +38,35 @@ CHECKS['C16'] = dict(
     assumptions=['reference encoder is the textbook base-128 loop written in the harness', 'decoders are only called on buffers that contain a terminator or are at least 5/10 bytes long (their documented contract)'],
     budget={'quick': 200, 'thorough': 1500},
 )
+
+CHECKS['C17'] = dict(
+    level=MC, engine='seqx',
+    technique='bounded-exhaustive enumeration of buffers (length x alignment x content, every byte value at every position) on all three CRC entry points against a bit-at-a-time reference',
+    text='Both implementations (SSE4.2 instructions and slicing-by-8 tables) and the public wrapper are called directly on every length 0..1100 at every alignment, on every byte value at every position of short buffers (which indexes every entry of all eight slicing tables) and on all 1-2 byte (thorough: 3 byte) buffers, and compared with a bit-wise Castagnoli reference and the standard check value.',
+    jobs=[dict(name='crc', spec=H('h_crc.c', 'asan'), args=[])],
+    states_key='cases', transitions_key='transitions', traces_key='cases',
+    rule='one case = (content family, length, alignment, patched position, value); signature = (min(len,24+len%8), alignment, family)',
+    bounds={'quick': 'len 0..1100 x align 0..7 x 6 families; every value at every position of len 1..16 (rest 00 / ff) x align 0..7; all 1- and 2-byte buffers',
+            'thorough': 'len 0..4200, 2^k+-1 up to 2^22; positions in len 1..40; all 3-byte buffers'},
+    nonzero=['cases', 'sse42_available'],
+    assumptions=['host CPU offers SSE4.2 (otherwise the hardware path cannot run; the check then fails its vacuity guard rather than pass silently)'],
+    budget={'quick': 200, 'thorough': 1500},
+)
+
+CHECKS['C15'] = dict(
+    level=MC, engine='seqx',
+    technique='bounded-exhaustive enumeration of (algorithm, level, buffer length, content family) through the real mtbl_compress/_level/_decompress; assertion failures captured in-process',
+    text='Every length 0..64 (thorough 0..300) x 7 content families x every algorithm value x every level in a boundary set (INT_MIN..INT_MAX, each library minimum-1..maximum+1) goes through the real compress/decompress pair; the oracle is exactly the statement: failure, or a byte-exact round trip, never an abort. Short buffers and extreme levels are where output-bound and clamping errors live, and they are covered completely.',
+    jobs=[
+        dict(name='small', spec=H('h_compress.c', 'asan'), args=['small']),
+        dict(name='big', spec=H('h_compress.c', 'asan'), args=['big']),
+        dict(name='names', spec=H('h_compress.c', 'asan'), args=['names'], shards=4),
+    ],
+    states_key='cases', transitions_key='transitions', traces_key='cases',
+    rule='one case = (algorithm, with/without level, level, content family, length); signature = (algorithm, clamped level, min(len,16)+size class, family)',
+    bounds={'quick': 'len 0..64 x 7 families x 8 algorithm values x levels {INT_MIN, INT_MIN+1, -131073..-131071, -10001..-9999, -100, lib min-1..max+1, INT_MAX-1, INT_MAX}; len 2^k+{-1,0,1}, k=7..20 x 3 levels; names: enum -2..9, all strings len<=4 over 33 letters, one-edit neighbours, all case variants',
+            'thorough': 'len 0..300; k up to 24'},
+    nonzero=['cases', 'compress_ok', 'compress_refused'],
+    assumptions=['the four compression libraries themselves are trusted'],
+    budget={'quick': 240, 'thorough': 1800},
+)
